@@ -483,6 +483,9 @@ func TestDrawProducesAcceptedPolicies(t *testing.T) {
 			if union != p.Full() {
 				t.Fatalf("%v: union is not all holders", p)
 			}
+			if r := p.RedundantHolders(); r != 0 || !p.Essential() {
+				t.Fatalf("%v: drawn CNF has redundant holders %b", p, r)
+			}
 		case Hier:
 			checkHierShape(t, p)
 		case Gate:
@@ -533,6 +536,49 @@ func TestDrawProducesAcceptedPolicies(t *testing.T) {
 			t.Fatalf("family %s never drawn", f)
 		}
 	}
+}
+
+func TestDropRedundantCNF(t *testing.T) {
+	red := 0
+	for n := 2; n <= 5; n++ {
+		for _, p := range AllCNF(n) {
+			var inAll = p.Full()
+			for _, u := range p.MUS {
+				inAll &= u
+			}
+			if inAll != p.RedundantHolders() {
+				t.Fatalf("%v: in every maximal unqualified set %b, in no minimal qualified set %b", p, inAll, p.RedundantHolders())
+			}
+			q := DropRedundantCNF(p)
+			if q.RedundantHolders() != 0 || q.N < 2 || q.SingletonQualified() || !q.Qualified(q.Full()) {
+				t.Fatalf("DropRedundantCNF(%v) = %v", p, q)
+			}
+			if inAll == 0 {
+				if q != p {
+					t.Fatalf("%v changed although nobody is redundant", p)
+				}
+				continue
+			}
+			red++
+			// same function on the surviving holders (unless the fallback 2-of-2 was returned)
+			if q.N == p.N-bits.OnesCount64(inAll) {
+				keep := Members(p.Full() &^ inAll)
+				for s := uint64(0); s <= q.Full(); s++ {
+					var orig uint64
+					for _, i := range Members(s) {
+						orig |= 1 << uint(keep[i])
+					}
+					if q.Qualified(s) != p.Qualified(orig) || q.Qualified(s) != p.Qualified(orig|inAll) {
+						t.Fatalf("DropRedundantCNF(%v) = %v differs at %b", p, q, s)
+					}
+				}
+			}
+		}
+	}
+	if red == 0 {
+		t.Fatalf("no CNF with a redundant holder in the small scopes")
+	}
+	t.Logf("%d enumerated CNF policies have redundant holders", red)
 }
 
 // ---- Tassa verdict ----------------------------------------------------------------------------------
